@@ -23,7 +23,7 @@ var c17Root string
 var c17In = map[string]string{}  // content -> relative path under the root
 var c17Out = map[string]string{} // content -> name of a file outside the root
 var c17In2 = map[string]string{} // content -> relative path under the second root
-var c17Router *rux.Router
+var c17Router, c17RouterEnc *rux.Router
 
 func c17Setup() {
 	c17Once.Do(func() {
@@ -72,7 +72,18 @@ func c17Setup() {
 		r.StaticFiles("/assets", c17Root, "css|js")
 		r.StaticFS("/fs", http.Dir(c17Root))
 		r.StaticFile("/one", filepath.Join(c17Root, "a.css"))
+		// the same handlers registered inside a group
+		r.Group("/grp", func() {
+			r.StaticFiles("/assets", c17Root, "css|js")
+			r.StaticDir("/static", c17Root)
+		})
 		c17Router = r
+		// ... and on a router that matches on the escaped path (the captured value is then the escaped text)
+		re := rux.New(rux.UseEncodedPath)
+		re.StaticDir("/static", c17Root)
+		re.StaticFiles("/assets", c17Root, "css|js")
+		re.StaticFS("/fs", http.Dir(c17Root))
+		c17RouterEnc = re
 	})
 }
 
@@ -94,7 +105,7 @@ func c17Gen(r *Rng, tier string, i int) Sx {
 		}
 		return L(A("clean"), S(p))
 	}
-	kind := []string{"dir", "files", "fs", "one", "dir", "files", "dir2", "files2"}[r.Intn(8)]
+	kind := []string{"dir", "files", "fs", "one", "dir", "files", "dir2", "files2", "gdir", "gfiles", "dire", "filese", "fse"}[r.Intn(13)]
 	if r.Chance(1, 2) {
 		// mostly-valid stream: a real file or directory, re-spelled with cancelling dot-dot pairs, "./", "//", a trailing slash,
 		// or an escape towards a sibling of the root
@@ -157,7 +168,12 @@ func c17Exec(c Sx) Sx {
 		return L(A("clean"), S(path.Clean("/"+c.List[1].Str())))
 	case "get":
 		kind, raw := c.List[1].Sym(), c.List[2].Str()
-		prefixes := map[string]string{"dir": "/static", "files": "/assets", "fs": "/fs", "one": "/one", "dir2": "/static2", "files2": "/assets2"}
+		prefixes := map[string]string{"dir": "/static", "files": "/assets", "fs": "/fs", "one": "/one", "dir2": "/static2", "files2": "/assets2",
+			"gdir": "/grp/static", "gfiles": "/grp/assets", "dire": "/static", "filese": "/assets", "fse": "/fs"}
+		router := c17Router
+		if strings.HasSuffix(kind, "e") && kind != "one" {
+			router = c17RouterEnc
+		}
 		prefix := prefixes[kind]
 		if prefix == "" {
 			panic("c17: bad kind")
@@ -188,7 +204,7 @@ func c17Exec(c Sx) Sx {
 					w.code = 599
 				}
 			}()
-			c17Router.ServeHTTP(w, req)
+			router.ServeHTTP(w, req)
 		}()
 		code := w.code
 		if code == 0 {
